@@ -1,7 +1,7 @@
 """C10 Five mode stream objects equal NIST SP 800-38A; decryptors invert encryptors."""
 from . import mode_rules, aes_rules
 LEVEL = 'proof'
-RULES = ('R10.s', 'R10.d', 'R10.i', 'R10.v', 'R10.c', 'R03.c', 'R09.k')
+RULES = ('R10.s', 'R10.d', 'R10.i', 'R10.v', 'R10.c', 'R10.h', 'R03.c', 'R09.k')
 
 
 def run(prog, rec, tier):
@@ -10,6 +10,7 @@ def run(prog, rec, tier):
     M.inverse()
     M.counter()
     M.isolation()
+    M.history()
     A = aes_rules.AesRules(prog, rec)
     A.key_load()
     rec.extra['explanation'] = (
